@@ -5,9 +5,9 @@ import lib
 from props import pgen, pstack
 
 ID = 'C08'
-GEN_FILES = ['T_parser']
+GEN_FILES = ['T_parser', 'T_pins_parser']
 COQ_PROPERTY = 'theories/Properties/C08.vo'
-COQ_EXTRA = ['theories/Generated/T_parser_selftest.vo']
+COQ_EXTRA = ['theories/Proofs/ParserPins.vo', 'theories/Generated/T_parser_selftest.vo']
 MODEL = ('ExC08', ['lua_io.ml', 'c08_main.ml'])
 MONITOR = ('MonC08', ['lua_io.ml', 'c08_mon_main.ml'])
 CASE_TIMEOUT = 120
